@@ -7,6 +7,24 @@ props = [json.loads(l) for l in open('/verif/properties.jsonl')]
 
 # id -> (technique, level text, level note, design ref)
 CHECKS = {
+ "C01": ("bounded exhaustive program enumeration (F-types, F-tables, F-enum) x 4 Go generator configurations, each accepted output import-fixed and type-checked with go/types next to its source package",
+         "every program within 2 (quick) / 3 (thorough) deviations x {gounions, randdata, sqlcrud, sqlcrud+sets}: no accepted input yields Go that fails to parse or type-check",
+         "quick tier uses an in-memory model of goimports (unused imports removed, missing ones added by package name among the program's packages then the standard library); lib/pq replaced by a stub with its signatures", "DESIGN.md §4 C01"),
+ "C02": ("bounded exhaustive enumeration of programs x values (shared deviation budget) executed in a compiled binary against a reference encoder built on encoding/json",
+         "every program within 1 / 2 deviations of F-types is compiled with its generated wrappers; every value of every analysed type within the remaining budget (total 2 / 3) is marshalled, unmarshalled (deep equality modulo nil/empty) and its wire document compared with the reference",
+         "the reference applies encoding/json's field rules to structs holding unions and encoding/json itself everywhere else", "DESIGN.md §4 C02"),
+ "C03": ("bounded exhaustive enumeration of programs x values; documents produced by the compiled Go code are checked for structural inhabitation of the parsed TypeScript output (tsparse)",
+         "well-formedness, exactly-once declarations and inhabitation of every emitted document for every analysed type within the shared budget",
+         "tsparse is the reference for 'valid TypeScript' (no compiler offline); fields tagged gomacro:\"ignore\" are outside the check", "DESIGN.md §4 C03"),
+ "C04": ("bounded exhaustive enumeration of programs x values x all single-point corruptions, validators interpreted by a PL/pgSQL model (vpg) with three-valued logic",
+         "for every jsonb column: the CHECK never evaluates to FALSE (or errors) on a Go-emitted document and evaluates to FALSE or errors on every corruption of the five listed classes; every called function is defined",
+         "vpg written from the PostgreSQL manual (no PostgreSQL offline); left-to-right short-circuit evaluation of AND/OR", "DESIGN.md §4 C04"),
+ "C05": ("explicit-state breadth-first search over CRUD histories: state = contents of an in-memory PostgreSQL model (vsql) built from the generated DDL, transitions = the generated functions, compared step by step with a map model; programs enumerated by deviation bound",
+         "BFS to depth 3 (quick) / 4 (thorough) from the empty database over every generated function x 3 row variants x existing/missing ids, for every program within 1 / 2 deviations of F-tables; after each write the whole store is compared with the model",
+         "vsql mimics PostgreSQL + lib/pq for the emitted statement shapes; FOREIGN KEY / UNIQUE / CHECK not enforced; custom queries executed but not modelled", "DESIGN.md §4 C05, §8.4"),
+ "C15": ("bounded exhaustive enumeration of programs x random answers: math/rand replaced by a shim whose draws are choice points, inside a compiled binary",
+         "every generated rand function of every program within 1 / 2 deviations, under every sequence of random answers within the shared budget: no panic, termination (draw limit / process death), well-formed values by reflection, variation, and the C02 round trip",
+         "Int31/Float64 answer from a 3-value alphabet; Intn(n) from all n values when n <= 8 else {0,1,n-1}", "DESIGN.md §4 C15"),
  "C08": ("bounded exhaustive program enumeration (deviation-bounded DFS over the F-tables/F-types program grammar) against a reference Go->SQL mapping computed on go/types",
          "every program within 2 (quick) / 3 (thorough) deviations of the F-tables scaffold and 1 / 2 of F-types is analysed by the real code, its SQL output is parsed and compared column by column, constraint by constraint with an independent restatement of the mapping",
          "the reference mapping is my reading of the documented mapping; programs outside the alphabet are not covered", "DESIGN.md §4 C08"),
